@@ -49,6 +49,8 @@ pub struct FileSpec {
     pub(crate) basename: String,
     pub(crate) o_discriminant: Option<String>,
     timestamp_cfg: TimestampCfg,
+    // the start time is determined once, at first use, and then kept
+    start_timestamp: std::sync::OnceLock<String>,
     o_suffix: Option<String>,
     pub(crate) use_utc: bool,
 }
@@ -62,6 +64,7 @@ impl Default for FileSpec {
             basename: Self::default_basename(),
             o_discriminant: None,
             timestamp_cfg: TimestampCfg::Default,
+            start_timestamp: std::sync::OnceLock::new(),
             o_suffix: Some(String::from("log")),
             use_utc: false,
         }
@@ -106,6 +109,7 @@ impl FileSpec {
                 o_discriminant: None,
                 o_suffix: p.extension().map(|s| s.to_string_lossy().to_string()),
                 timestamp_cfg: TimestampCfg::No,
+                start_timestamp: std::sync::OnceLock::new(),
                 use_utc: false,
             })
         }
@@ -251,9 +255,9 @@ impl FileSpec {
             append_underscore_if_not_empty(&mut fixed_name_part);
             fixed_name_part.push_str(discriminant);
         }
-        if let Some(timestamp) = &self.timestamp_cfg.get_timestamp() {
+        if let Some(timestamp) = self.get_start_timestamp() {
             append_underscore_if_not_empty(&mut fixed_name_part);
-            fixed_name_part.push_str(timestamp);
+            fixed_name_part.push_str(&timestamp);
         }
         fixed_name_part
     }
@@ -415,9 +419,19 @@ impl FileSpec {
             .collect::<Vec<PathBuf>>()
     }
 
+    // The start time must not change while the FileSpec is in use,
+    // otherwise existing files could not be found again, and rotation would start new families.
+    fn get_start_timestamp(&self) -> Option<String> {
+        self.timestamp_cfg.get_timestamp().map(|timestamp| {
+            self.start_timestamp
+                .get_or_init(|| timestamp)
+                .clone()
+        })
+    }
+
     #[cfg(test)]
     pub(crate) fn get_timestamp(&self) -> Option<String> {
-        self.timestamp_cfg.get_timestamp()
+        self.get_start_timestamp()
     }
 }
 
